@@ -7,7 +7,7 @@ package store
 // Fields of Store that are set when the Store is built (New) or opened (Open) and never
 // re-assigned afterwards; checked syntactically over the package (obligations #stable[f]).
 //@ type Store
-//@   stable snapshotCAS, fsmTarget, appliedTarget, open, reqMarshaller, throttler, readyChans, fsmUpdateTime, appendedAtTime, dbModifiedTime, raft, snapshotStore, cmdProc, dechunkManager, raftTn, logger, raftID
+//@   stable db, dbDir, snapshotCAS, fsmTarget, appliedTarget, open, reqMarshaller, throttler, readyChans, fsmUpdateTime, appendedAtTime, dbModifiedTime, raft, snapshotStore, cmdProc, dechunkManager, raftTn, logger, raftID
 //@   stable_set_in New, Open
 //
 // ---- C31: shutdown waits for the gate only as long as needed ----------------------------------
@@ -204,8 +204,8 @@ package store
 // and only after the entry was processed; the database-applied index moves only when the entry
 // changed the database; a LOAD raises the full-snapshot requirement in the same apply.
 //@ func (*Store) fsmApply
-//@   requires [built] s != nil && l != nil && s.fsmTarget != nil && s.appliedTarget != nil
-//@   assigns *, chanClosed
+//@   requires [built] s != nil && l != nil && s.fsmTarget != nil && s.appliedTarget != nil && s.cmdProc != nil && s.db != nil
+//@   assigns *, chanClosed, optHas, optVal, handleOpen, handleDSN
 //@   ghost var nProcess int = 0
 //@   ghost var signalled bool = false
 //@   ghost var mut bool = false
@@ -308,3 +308,88 @@ package store
 //@   assert @inc:nRO: [ro-only-if] stmt.SqlExplain || roOK
 //@   loop 1 invariant [all-counted] nRO + nRW == cnt && nRO >= 0 && nRW >= 0
 //@   ensures [all-counted] nRO + nRW == cnt
+//
+// ---- C22: loads and boots replace the database through the log --------------------------------------
+// load: the only thing load does with the data is to put it, as a LOAD command carrying the
+// marshalled load request, through raft.Apply; nil is returned only if the entry was applied and
+// the FSM reported no error.
+//@ func (*Store) load
+//@   requires [built] s != nil
+//@   assigns *, bufLen
+//@   ghost var lrB slice = nilslice
+//@   ghost var cmdB slice = nilslice
+//@   ghost var applied bool = false
+//@   ghost var applyErr error = nil
+//@   assert @command.MarshalLoadRequest: [own-request] arg0 == lr
+//@   ghost update @command.MarshalLoadRequest: lrB = result0
+//@   assert @command.Marshal: [load-command] arg0 != nil && arg0.Type == proto.Command_COMMAND_TYPE_LOAD && arg0.SubCommand == lrB && !arg0.Compressed
+//@   ghost update @command.Marshal: cmdB = result0
+//@   assert @s.raft.Apply: [through-the-log] arg0 == cmdB
+//@   ghost update @s.raft.Apply: applied = true
+//@   assert @?s.db.*: [never-direct] false
+//@   ensures [nil-means-applied] retErr == nil ==> applied
+//
+// ReadFrom (boot): leader, single node and valid SQLite data are all established before the
+// no-op entry and the swap; the swap installs the file that was validated; the full-snapshot
+// requirement is raised right after the swap and before the snapshot that loads the new
+// database into the raft system.
+//@ func (*Store) ReadFrom
+//@   requires [built] s != nil && s.db != nil
+//@   assigns **
+//@   ghost var leader bool = false
+//@   ghost var nNodes int = 0
+//@   ghost var nodesErr error = nil
+//@   ghost var nodesSeen bool = false
+//@   ghost var valid bool = false
+//@   ghost var noopOK bool = false
+//@   ghost var noopApplied bool = false
+//@   ghost var swapOK bool = false
+//@   ghost var fullSet bool = false
+//@   ghost var snapOK bool = false
+//@   ghost update @s.raft.State: leader = (result == raft.Leader)
+//@   ghost update @s.Nodes: nNodes = len(result0)
+//@   ghost update @s.Nodes: nodesErr = result1
+//@   ghost update @s.Nodes: nodesSeen = true
+//@   assert @sql.IsValidSQLiteFile: [validates-received-file] arg0 == fileName(f)
+//@   ghost update @sql.IsValidSQLiteFile: valid = result
+//@   assert @s.Noop: [checks-before-noop] leader && nodesSeen && nodesErr == nil && nNodes == 1 && valid
+//@   ghost update @s.Noop: noopOK = (result1 == nil)
+//@   ghost update @af.Error: noopApplied = (result == nil)
+//@   assert @s.db.Swap: [swap-after-checks] leader && nodesSeen && nodesErr == nil && nNodes == 1 && valid && noopOK && noopApplied && arg0 == fileName(f)
+//@   ghost update @s.db.Swap: swapOK = (result == nil)
+//@   assert @s.snapshotStore.SetDueNext: [full-after-swap] swapOK && arg0 == snapshot.Full
+//@   ghost update @s.snapshotStore.SetDueNext: fullSet = (result == nil)
+//@   assert @s.Snapshot: [snapshot-after-full-needed] swapOK && fullSet
+//@   ghost update @s.Snapshot: snapOK = (result == nil)
+//@   ensures [nil-means-installed] result1 == nil ==> (swapOK && fullSet && snapOK)
+//
+// Process: what one log entry does to the database. LOAD: the bytes of the request are written
+// to a scratch file and that file is swapped in; the entry counts as a database change only if
+// the swap succeeded. LOAD_CHUNK: the reassembled file is swapped in only when it is a valid
+// SQLite file. The other kinds hand the decoded request to the like-named database call.
+//@ func (*CommandProcessor) Process
+//@   requires [args] c != nil && db != nil
+//@   assigns *, optHas, optVal, handleOpen, handleDSN
+//@   ghost var wrote bool = false
+//@   ghost var swapped bool = false
+//@   ghost var swapErr error = nil
+//@   ghost var chunkValid bool = false
+//@   ghost var kind int = 0
+//@   ghost update @def:cmd: kind = 0
+//@   assert @fd.Write: [load-bytes] arg0 == lr.Data
+//@   ghost update @fd.Write: wrote = (result1 == nil)
+//@   assert @db.Swap#1: [load-swaps-written-file] cmd.Type == proto.Command_COMMAND_TYPE_LOAD && wrote && arg0 == fileName(fd)
+//@   ghost update @db.Swap#1: swapped = true
+//@   ghost update @db.Swap#1: swapErr = result
+//@   ghost update @sql.IsValidSQLiteFile: chunkValid = result
+//@   assert @sql.IsValidSQLiteFile: [validates-reassembled-file] arg0 == path
+//@   assert @db.Swap#2: [chunked-valid-before-swap] cmd.Type == proto.Command_COMMAND_TYPE_LOAD_CHUNK && chunkValid && arg0 == path
+//@   ghost update @db.Swap#2: swapped = true
+//@   ghost update @db.Swap#2: swapErr = result
+//@   assert @db.Execute: [execute-own-request] cmd.Type == proto.Command_COMMAND_TYPE_EXECUTE && arg0 == er.Request && arg1 == er.Timings
+//@   assert @db.Query: [query-own-request] cmd.Type == proto.Command_COMMAND_TYPE_QUERY && arg0 == qr.Request && arg1 == qr.Timings
+//@   assert @db.Request: [request-own-request] cmd.Type == proto.Command_COMMAND_TYPE_EXECUTE_QUERY && arg0 == eqr.Request && arg1 == eqr.Timings
+//@   ensures [load-mutated-iff-swapped] (result0 != nil && result0.Type == proto.Command_COMMAND_TYPE_LOAD) ==> (result1 == (swapped && swapErr == nil))
+//@   ensures [swap-failure-not-a-change] (swapped && swapErr != nil) ==> !result1
+//@   ensures [query-noop-never-a-change] (result0 != nil && (result0.Type == proto.Command_COMMAND_TYPE_QUERY || result0.Type == proto.Command_COMMAND_TYPE_NOOP)) ==> !result1
+//@   ensures [command-returned] result0 != nil
